@@ -31,6 +31,7 @@ var vStubTable = map[string]string{
 var (
 	vNProj, vNVer int
 	vEdges        = map[string][]int{} // node key -> per project: 0 none, k = version index k-1
+	vEdges2       = map[string][]int{} // the same, for a second requirement of the same path under another name
 	vFetches      = map[string]int{}
 	vFailOnce     = map[string]bool{}
 	vNames        = map[string]string{} // project path -> declared project name ("" = none)
@@ -102,7 +103,7 @@ func vReqsOf(i, k int) []int {
 	if e, ok := vEdges[key]; ok {
 		return e
 	}
-	e := make([]int, vNProj)
+	e, e2 := make([]int, vNProj), make([]int, vNProj)
 	for j := 0; j < vNProj; j++ {
 		if j == i {
 			continue // a project does not require itself
@@ -118,9 +119,23 @@ func vReqsOf(i, k int) []int {
 			}
 		}
 		e[j] = vChoose("requires", vNVer+1)
+		if vInnerAlias > 0 && e[j] > 0 {
+			// the same path once more under another name, at any version (or not at all)
+			e2[j] = vChoose("requires-again", vNVer+1)
+		}
 	}
 	vEdges[key] = e
+	vEdges2[key] = e2
 	return e
+}
+
+// vInnerAlias: 0 = a project names each required path once; 1 / 2 = a non-root project may require
+// a path twice under two names, the second name sorting after / before the first.
+var vInnerAlias int
+
+func vReqs2Of(i, k int) []int {
+	vReqsOf(i, k)
+	return vEdges2[vNode(i, k)]
 }
 
 func vLoadConfig(path string) (*project.Config, error) {
@@ -137,6 +152,15 @@ func vLoadConfig(path string) (*project.Config, error) {
 	for j, v := range vReqsOf(i, k) {
 		if v > 0 {
 			c.Requirements[fmt.Sprintf("dep%d", j)] = project.RequirementConfig{Path: vPath(j), Version: vVersion(j, v-1)}
+		}
+	}
+	for j, v := range vReqs2Of(i, k) {
+		if v > 0 {
+			name := fmt.Sprintf("zdep%d", j)
+			if vInnerAlias == 2 {
+				name = fmt.Sprintf("adep%d", j)
+			}
+			c.Requirements[name] = project.RequirementConfig{Path: vPath(j), Version: vVersion(j, v-1)}
 		}
 	}
 	return c, nil
@@ -193,6 +217,11 @@ func vExpected(root []int) []int {
 			best[i] = k + 1
 		}
 		for j, v := range vReqsOf(i, k) {
+			if v > 0 {
+				visit(j, v-1)
+			}
+		}
+		for j, v := range vReqs2Of(i, k) {
 			if v > 0 {
 				visit(j, v-1)
 			}
